@@ -12,7 +12,7 @@ pub fn def() -> CheckDef {
         meta: CheckMeta {
             id: "C14",
             level: "exploration",
-            rule: "client programs compiled with rustc against the libjammdb rlib just built from /repo: (1) a hand-written corpus, one program per (type, escape route): types Bucket, Cursor, Range, bucket / pair iterators, Data, KVPair, BucketName, the bytes from BucketName::to_bytes, byte slices from key/value/kv/name; routes: use after the transaction's scope, use after commit, return from fn(&DB), store in a longer-lived container, thread::spawn, scoped thread (thread routes for handles, not for plain byte slices); plus special programs (Tx past its DB, Tx moved to a thread, too-short key / value / bucket-name buffers, handle used after commit / drop); (2) programs generated from the public API surface: nightly rustdoc JSON of the current tree is walked for every public inherent method and trait implementation on every type reachable from a transaction, arguments are synthesised from the signatures, and every result that can carry a borrow is pushed through every route, plain and wrapped in Option / tuple / Box / Vec / closure; (3) positive controls that must compile and run. Oracle: an escape program must be rejected with a borrow / lifetime error (thread routes: or a Send / Sync error); any other rejection is inconclusive for that program; if it compiles: a bucket / cursor / iterator handle that outlives its transaction is a violation outright; anything else is linked and run in a probe that copies the bytes the escaped value exposes (as AsRef<[u8]> or through the key / value / name accessors), ends the transaction, churns the database (commits that grow and remap the file and reuse every freed page) and re-reads the bytes: no fault, bytes unchanged; a thread route that compiles is a violation. Non-trivial = program that reached the type checker with the escape present (rejected for the expected reason, or compiled and probed). Distinct = program id.",
+            rule: "client programs compiled with rustc against the libjammdb rlib just built from /repo: (1) a hand-written corpus, one program per (type, escape route): types Bucket, Cursor, Range, bucket / pair iterators, Data, KVPair, BucketName, the bytes from BucketName::to_bytes, byte slices from key/value/kv/name; routes: use after the transaction's scope, use after commit, return from fn(&DB), store in a longer-lived container, thread::spawn, scoped thread (thread routes for handles, not for plain byte slices); plus special programs (Tx past its DB, Tx moved to a thread, too-short key / value / bucket-name buffers, handle used after commit / drop); (2) programs generated from the public API surface: nightly rustdoc JSON of the current tree is walked for every public inherent method and trait implementation on every type reachable from a transaction, arguments are synthesised from the signatures, and every result that can carry a borrow is pushed through every route, plain and wrapped in Option / tuple / Box / Vec / closure; (2b) for every ToBytes argument of every method: a key / value / name buffer that dies before commit, in every container kind (&str, &bytes::Bytes, a bytes::Bytes clone, &Vec<u8>, &String, &[u8], &[u8; N]): must be rejected, or, if accepted, must have been copied (the freed memory is overwritten before commit and must not show up in the committed data); (3) positive controls that must compile and run. Oracle: an escape program must be rejected with a borrow / lifetime error (thread routes: or a Send / Sync error); any other rejection is inconclusive for that program; if it compiles: a bucket / cursor / iterator handle that outlives its transaction is a violation outright; anything else is linked and run in a probe that copies the bytes the escaped value exposes (as AsRef<[u8]> or through the key / value / name accessors), ends the transaction, churns the database (commits that grow and remap the file and reuse every freed page) and re-reads the bytes: no fault, bytes unchanged; a thread route that compiles is a violation. Non-trivial = program that reached the type checker with the escape present (rejected for the expected reason, or compiled and probed). Distinct = program id.",
             assumptions: &[
                 "unsafe client code is out of scope",
                 "thread routes are applied to handles (types of the crate, opaque iterators), not to plain &[u8] (a byte slice is Send + Sync by language rules and stays valid while its transaction is alive on the other thread)",
@@ -85,6 +85,11 @@ fn judge(ctx: &ShardCtx, known: &Known, out: &mut ShardOut, v: &Value) {
             if origin != "control" && origin != "special" {
                 classes.push(format!("route {}", route));
             }
+        }
+        if verdict == "not_applicable" {
+            // a short-lived-buffer variant whose container type the argument does not accept
+            out.excluded += 1;
+            continue;
         }
         let (failure, nt) = match verdict.as_str() {
             "rejected_expected" | "compiled_ran_unharmed" | "control_ok" => (None, true),
